@@ -12,6 +12,7 @@ import hashlib
 import json
 import os
 import struct
+import time
 
 from lib.core import cN, cbool, cbytes, clist, copt, cpair, vB, vL, vN, vbool, vopt
 
@@ -116,6 +117,8 @@ class Runner:
         self.tmp = os.path.join(self.base, "tmpfiles")
         os.makedirs(self.root)
         os.makedirs(self.tmp)
+        self.targets = os.path.join(self.base, "targets")   # targets of symlinked files, outside the staged directory
+        os.makedirs(self.targets)
         self.state = State(root_dir=self.root, tmp_dir=os.path.join(self.base, "state"))
         self.odb = LocalHashFileDB(localfs, os.path.join(self.base, "odb"), state=self.state)
         self.localfs = localfs
@@ -233,7 +236,9 @@ class Runner:
     def op_write(self, op):
         fid, data = op["f"], POOL[op["c"]]
         prev = self._prev_ns(fid)
-        with open(self.path([fid]), "wb") as f:      # truncates in place: same inode
+        if os.path.islink(self.path([fid])):
+            self.flags.add("symlink-target-rewritten")
+        with open(self.path([fid]), "wb") as f:      # truncates in place: same inode (of the target, for a link)
             f.write(data)
         tok = self.settle(fid, op.get("mt"), prev)
         self.content[fid] = data
@@ -245,13 +250,36 @@ class Runner:
         term, out = self.op_write(op)
         return "Create" + term[len("Write"):], out
 
+    def op_mklink(self, op):
+        """the file is a symlink to a regular file outside the staged directory; from now on write / touch /
+        replace(target) act on the TARGET (open, os.utime follow the link), the link itself is untouched.
+        The token of a path is the token of what it resolves to (os.stat follows, as _localfs_info does)."""
+        fid, data = op["f"], POOL[op["c"]]
+        p = self.path([fid])
+        if os.path.lexists(p):
+            os.unlink(p)
+        target = os.path.join(self.targets, f"t{fid}_{len(self.ops_terms)}")
+        with open(target, "wb") as f:
+            f.write(data)
+        os.symlink(target, p)
+        tok = self.settle(fid, None, None)
+        self.content[fid] = data
+        self.contents_used.add(data)
+        self.mutated(fid)
+        self.flags.add("symlink")
+        return f"Create [{fid}] {cbytes(data)} {ctoken(tok)}", vL([])
+
     def op_replace(self, op):
         fid, data = op["f"], POOL[op["c"]]
         prev = self._prev_ns(fid)
         tmp = os.path.join(self.tmp, f"t{len(self.ops_terms)}")
         with open(tmp, "wb") as f:
             f.write(data)
-        os.replace(tmp, self.path([fid]))            # new inode
+        dest = self.path([fid])
+        if op.get("target") and os.path.islink(dest):
+            dest = os.path.realpath(dest)            # replace the link's target, the link stays
+            self.flags.add("symlink-target-replaced")
+        os.replace(tmp, dest)                        # new inode
         tok = self.settle(fid, op.get("mt"), prev)
         self.content[fid] = data
         self.contents_used.add(data)
@@ -462,7 +490,6 @@ class Runner:
                 vL([vN(3), vL([]) if val is None else vL([vB(val)])]))
 
     def op_get_hashes(self, op):  # noqa: C901
-        from dvc_data.hashfile.build import _get_hashes
         from dvc_data.hashfile.build import build as obuild
         from dvc_data.index.build import build_entries
 
@@ -492,18 +519,54 @@ class Runner:
             infos = {p: self.mem.info(p) for p in paths}
             iterms = [f"([{f}], T 0 0 0)" for f in dict.fromkeys(fids)]
         got = {}
-        if route == "direct":
-            r = _get_hashes(paths, fs, alg, infos, state=self.state)
-            got = {self.pid_of(p)[0]: (hi.name, hi.value) for p, (_, hi, _) in r.items()}
-        elif route == "build_file":
-            _, _, obj = obuild(self.odb, paths[0], fs, alg, dry_run=True)
-            got = {fids[0]: (obj.hash_info.name, obj.hash_info.value)}
-        elif route == "build_dir":
-            _, _, obj = obuild(self.odb, self.root, fs, alg, dry_run=op.get("dry", True))
-            got = {int(key[0][1:]): (hi.name, hi.value) for key, _, hi in obj}
-        else:
-            for e in build_entries(self.root, fs, compute_hash=True, state=self.state, hash_name=alg):
-                got[int(e.key[0][1:])] = (e.hash_info.name, e.hash_info.value)
+        # pool hashing with out-of-order completion: every file with size >= 1 counts as "large"
+        # (threshold patched to 0, as harness/props/c03.py does), checksum_jobs in {2, 4}, and the read of the
+        # earlier-submitted files is delayed so that they finish last.  The model hashes per path: the answer
+        # does not depend on submission or completion order.
+        pool = op.get("pool") if local else None
+        jobs = pool["jobs"] if pool else None
+        import dvc_data.hashfile.build as bmod
+
+        o_gh, o_hash = bmod._get_hashes, bmod.hash_file
+        delays = {}
+        pooled = [0]
+
+        def p_get_hashes(paths_, fs_, name_, infos_, **kw):
+            kw["large_file_threshold"] = 0
+            order = list(dict.fromkeys(paths_))
+            for i, q in enumerate(order[:2]):
+                delays[q] = (0.09, 0.045)[i]
+            return o_gh(paths_, fs_, name_, infos_, **kw)
+
+        def p_hash_file(path_, *a, **kw):
+            d = delays.get(path_)
+            if d and kw.get("state") is None and len(a) < 3:
+                pooled[0] += 1
+                time.sleep(d)
+            return o_hash(path_, *a, **kw)
+
+        if pool:
+            bmod._get_hashes, bmod.hash_file = p_get_hashes, p_hash_file
+        kwj = {"checksum_jobs": jobs} if pool else {}
+        try:
+            if route == "direct":
+                r = bmod._get_hashes(paths, fs, alg, infos, state=self.state, **({"jobs": jobs} if pool else {}))
+                got = {self.pid_of(p)[0]: (hi.name, hi.value) for p, (_, hi, _) in r.items()}
+            elif route == "build_file":
+                _, _, obj = obuild(self.odb, paths[0], fs, alg, dry_run=True)
+                got = {fids[0]: (obj.hash_info.name, obj.hash_info.value)}
+            elif route == "build_dir":
+                _, _, obj = obuild(self.odb, self.root, fs, alg, dry_run=op.get("dry", True), **kwj)
+                got = {int(key[0][1:]): (hi.name, hi.value) for key, _, hi in obj}
+            else:
+                for e in build_entries(self.root, fs, compute_hash=True, state=self.state, hash_name=alg, **kwj):
+                    got[int(e.key[0][1:])] = (e.hash_info.name, e.hash_info.value)
+        finally:
+            bmod._get_hashes, bmod.hash_file = o_gh, o_hash
+        if pool:
+            self.flags.add("staging:pool")
+            if pooled[0] >= 2:
+                self.flags.add("staging:pool>=2-uncached")
         if sorted(got) != sorted(set(fids)):
             self.fail("C13:stale:build", f"{route}: answered for {sorted(got)}, files are {sorted(set(fids))}")
         vals = []
